@@ -685,6 +685,13 @@ class C40(core.Check):
                     b2[rng.randrange(len(b2))] ^= 1 << rng.randrange(8)
                 h2 = [zlib.crc32(bytes(b2)) & 0xffffffff] + hdr[1:]
                 variants.append(struct.pack(state.HEADER_FORMAT, *h2) + bytes(b2))
+            # several header bytes altered at once, to any values (payload untouched)
+            for _ in range(3):
+                h2 = bytearray(base[:24])
+                for i in rng.sample(range(24), rng.randrange(2, 7)):
+                    h2[i] = rng.choice([0, max(0, h2[i] - 1), (h2[i] + 1) % 256, rng.randrange(256), 255])
+                if bytes(h2) != base[:24]:
+                    variants.append(bytes(h2) + blob)
             other = zlib.compress(pickle.dumps(['other'], pickle.HIGHEST_PROTOCOL))
             variants.append(struct.pack(state.HEADER_FORMAT, zlib.crc32(other) & 0xffffffff, *hdr[1:]) + other)
             codes = [self._try_load(base, d, case['obj'])]
@@ -1068,6 +1075,12 @@ class C40(core.Check):
             for (i, v), code in zip(data['mods'], data['codes'][1:]):
                 if v != data['base'][i] and code == 0:
                     return 'state file with byte %d altered (%d -> %d) is loaded, not rejected' % (i, data['base'][i], v)
+            base = data['base']
+            vcodes = data['codes'][1 + len(data['mods']):]
+            for (dc, v), code in zip(data['variants'], vcodes):
+                if len(v) == len(base) and v[24:] == base[24:] and v != base and code == 0:
+                    return 'state file with header bytes %r altered to %r (payload untouched) is loaded, not rejected' % (
+                        base[:24], v[:24])
             return None
         if k == 'real':
             data = self._cache('real', case, self._real_data)
